@@ -280,7 +280,7 @@ func main() {
 	// ---- seeded random ----
 	nNew, nEnc, nName := 800, 300, 1000
 	if cfg.Thorough() {
-		nNew, nEnc, nName = 60000, 10000, 40000
+		nNew, nEnc, nName = 20000, 5000, 15000
 	}
 	var ids [][]byte
 	for i := 0; i < nNew; i++ {
